@@ -138,9 +138,10 @@ func escape(s string, m map[rune]string) string {
 			}
 
 			// The prefixes above only read back when followed by a plain printable
-			// character (a backslash could start \C-\M- or \M-\C-): otherwise, use
-			// the hexadecimal notation for the original character.
-			if unicode.IsPrint(c) && c != '\\' {
+			// character (a backslash could start \C-\M- or \M-\C-, and a double
+			// quote would end the quoted sequence or macro of a dumped bind line):
+			// otherwise, use the hexadecimal notation for the original character.
+			if unicode.IsPrint(c) && c != '\\' && c != '"' {
 				s += string(c)
 			} else {
 				s = fmt.Sprintf(`\x%02x`, char)
